@@ -49,11 +49,11 @@ def cases(rng, tier):
     # ITS input - whatever scratch space a call uses is its own
     small = W.random_program(rng).render()
     for k in range(8):
-        pad = "\n".join("// variant %d line %04d %s" % (k, j, "x" * 40) for j in range(1200))
+        pad = "\n".join("// variant %d line %04d %s" % (k, j, "x" * 40) for j in range(1150))
         out.append({"wgsl": W.random_program(rng).render() + pad + "\n// end of variant %d\n" % k, "family": "concurrent_large_rustfmt",
-                    "opts": {"rustfmt": True}, "include": None})
+                    "opts": {"rustfmt": True}, "include": None, "light": True})
         for j in range(3):
-            out.append({"wgsl": small + "// filler %d.%d\n" % (k, j), "family": "concurrent_filler", "opts": {"rustfmt": False}, "include": None})
+            out.append({"wgsl": small + "// filler %d.%d\n" % (k, j), "family": "concurrent_filler", "opts": {"rustfmt": False}, "include": None, "light": True})
     # text that LOOKS like an escape sequence of a Rust string literal (a comment documenting escapes, a code point table):
     # it is ordinary text, every character of it belongs to the source
     for esc in ("\\u{6e}", "\\u{74}", "\\u{72}", "\\u{0030}", "\\u{22}", "\\u{27}", "\\u{5c}", "\\u{5C}", "\\u{006E}", "\\n", "\\x41", "\\u{1F600}",
@@ -111,7 +111,7 @@ def run_cases(plain, cases_, workdir, tag):
     # formatter on, formatter failing: two embedded cases are generated again under each failing formatter
     if "search" not in tag:
         import os, stat
-        picked = [p for p in emb if by_id[p["id"]].get("result") == "ok"][:2]
+        picked = [p for p in emb if by_id[p["id"]].get("result") == "ok" and len(p["wgsl"]) < 20000][:2]
         for name, script in FAULTY_FORMATTERS.items():
             d = os.path.join(workdir, "fmt_" + name)
             os.makedirs(d, exist_ok=True)
@@ -199,6 +199,11 @@ def verdict_expr(c, r, ir, real):
     ca, cb = chars_clause(c, r)
     return ('[true; agree_res (fun a b => source_eqb (o_source a) (o_source b)) (gen %s %s %s %s) %s && %s && %s; %s && %s && %s]'
             % (ir, coq_string(c["wgsl"]), inc, coq_options(c["opts"]), real, extra, ca, "true" if b_holds(c, r) else "false", b_inc, cb))
+
+
+def verdict_expr_light(c, r):
+    # concurrency families (sources of 70 KiB): rustc's SOURCE == include_bytes! comparison and the device string decide
+    return '[true; true; %s]' % ("true" if b_holds(c, r) else "false")
 
 
 def verdict_expr_noout(c, r, ir):
